@@ -32,7 +32,7 @@ def label_view(lc, sample_pairs):
     for a, b in sample_pairs:
         x, y = by_ext.get(a), by_ext.get(b)
         if x is not None and y is not None:
-            jm[(a, b)] = (key(x | y), key(x & y))
+            jm[(a, b)] = (key(x | y), key(x & y), key(L.join([x, y])), key(L.meet([x, y])))
     rels = set()
     for r in lc.ctx.relations():
         if r.kind == 'implication':
@@ -106,7 +106,7 @@ def run(run):
             run.fail('transposed context does not have the dual concepts', None, None, [base.line, t.line], extra)
         if frozenset(((b[1], b[0]), (a[1], a[0])) for a, b in vt['covers']) != v0['covers']:
             run.fail('covering relation of the transposed context is not the reversed one', None, None, [base.line, t.line], extra)
-        for (a, b), (j, mt) in v0['joinmeet'].items():
+        for (a, b), (j, mt, _j2, _m2) in v0['joinmeet'].items():
             # concept of K with extent a corresponds to the concept of K^T with intent a
             xa = [c for c in Lt if frozenset(c.intent) == a]
             xb = [c for c in Lt if frozenset(c.intent) == b]
